@@ -88,6 +88,10 @@ type steps struct {
 	// is answered and carries on with its moves
 	badHeaderAt int
 	badHeader   string
+	// the peer's refuseAt-th message (1-based; 0 none) is replaced by a stream
+	// error that ends its stream (after the stream header, when the message
+	// began with one); msgNo counts the peer's messages
+	refuseAt, msgNo int
 	// the session is created through the convenience constructor of its kind
 	// (NewClientSession, ReceiveClientSession, NewServerSession) instead of
 	// NewSession / ReceiveSession with an explicit negotiator
@@ -1169,6 +1173,80 @@ func TestC04RefusedBind(t *testing.T) {
 				}
 				if msg != "" {
 					ev.Failf(t, "%s\nthe peer answered the bind request with an IQ that is not a result\n%s", describe(tr, fault{kind: "none"}, plain, result{}, r), msg)
+				}
+			}
+		}
+	}
+}
+
+// withRefusal: the peer's m-th message is replaced by a stream error followed
+// by the end of its stream - after its stream header when the message began
+// with one (the usual way a peer refuses a stream: host-unknown,
+// policy-violation, ...).
+func withRefusal(tr transcript, m int, cond string) transcript {
+	tr.name += fmt.Sprintf(" with the peer's message %d replaced by the stream error %s", m, cond)
+	old := tr.prep
+	tr.prep = func(st *steps) {
+		if old != nil {
+			old(st)
+		}
+		st.refuseAt = m
+	}
+	inner, ws := tr.script, tr.ws
+	tr.script = func(st *steps, p *wire.Reactive, fresh []byte) []byte {
+		out := inner(st, p, fresh)
+		if out == nil {
+			return nil
+		}
+		st.msgNo++
+		switch {
+		case st.msgNo < st.refuseAt:
+			return out
+		case st.msgNo > st.refuseAt:
+			return nil
+		}
+		prefix := ""
+		mark := "<stream:stream"
+		if ws {
+			mark = "<open"
+		}
+		if i := bytes.Index(out, []byte(mark)); i >= 0 {
+			prefix = string(out[:i+bytes.IndexByte(out[i:], '>')+1])
+		}
+		if ws {
+			return []byte(prefix + `<stream:error xmlns:stream="` + wire.StreamNS + `"><` + cond + ` xmlns="urn:ietf:params:xml:ns:xmpp-streams"/></stream:error><close xmlns="` + wire.WSNS + `"/>`)
+		}
+		return []byte(prefix + `<stream:error><` + cond + ` xmlns="urn:ietf:params:xml:ns:xmpp-streams"/></stream:error></stream:stream>`)
+	}
+	return tr
+}
+
+// TestC04StreamRefused: the peer answers one of the handshake's moves - the
+// stream header included - with a stream error and the end of its stream, cut
+// at every byte from the beginning of that answer: the constructor reports an
+// error, the session is not ready, nothing panics.
+func TestC04StreamRefused(t *testing.T) {
+	ev.Begin(t)
+	for _, tr0 := range []transcript{plainInitiator(false), plainInitiator(true), fullInitiator(false, false, false, false), fullReceiver(false, false, false),
+		fullInitiator(true, false, false, false), fullReceiver(true, false, false), componentInitiator(), bidiInitiator(), viaWrapper(fullInitiator(false, false, false, false))} {
+		base0 := baseline(t, tr0)
+		for m := 1; m <= len(base0.msgs); m++ {
+			cond := []string{"host-unknown", "policy-violation", "system-shutdown"}[m%3]
+			tr := withRefusal(tr0, m, cond)
+			full := runWith(tr, fault{kind: "none"}, false)
+			ev.Case(true, tr.name, "peer-refuses-with-stream-error", fmt.Sprintf("peer-refuses-at-message-%d", m))
+			if msg := judgeMust(full); msg != "" {
+				ev.Failf(t, "%s\n%s", describe(tr, fault{kind: "none"}, false, base0, full), msg)
+			}
+			from := 0
+			if m >= 2 {
+				from = base0.bounds[m-2]
+			}
+			for n := from; n <= full.fed; n++ {
+				ev.Case(true, fmt.Sprintf("%s cut@%d", tr.name, n), "peer-refuses-with-stream-error", "cut")
+				r := runWith(tr, fault{kind: "cut", n: n}, n%2 == 0)
+				if msg := judgeMust(r); msg != "" {
+					ev.Failf(t, "%s\n%s", describe(tr, fault{kind: "cut", n: n}, n%2 == 0, base0, r), msg)
 				}
 			}
 		}
